@@ -74,6 +74,7 @@ func (e *Engine) Timer() ndn.Timer {
 }
 
 func (e *Engine) AttachHandler(prefix enc.Name, handler ndn.InterestHandler) error {
+	verifBeforeLock(&e.fibLock, "fib.lock")
 	e.fibLock.Lock()
 	defer e.fibLock.Unlock()
 	n := e.fib.MatchAlways(prefix)
@@ -85,6 +86,7 @@ func (e *Engine) AttachHandler(prefix enc.Name, handler ndn.InterestHandler) err
 }
 
 func (e *Engine) DetachHandler(prefix enc.Name) error {
+	verifBeforeLock(&e.fibLock, "fib.lock")
 	e.fibLock.Lock()
 	defer e.fibLock.Unlock()
 
@@ -197,6 +199,7 @@ func (e *Engine) onInterest(args ndn.InterestHandlerArgs) {
 
 	// Match node
 	handler := func() ndn.InterestHandler {
+		verifBeforeLock(&e.fibLock, "fib.lock")
 		e.fibLock.Lock()
 		defer e.fibLock.Unlock()
 		n := e.fib.PrefixMatch(name)
@@ -254,6 +257,7 @@ func (e *Engine) onInterest(args ndn.InterestHandlerArgs) {
 }
 
 func (e *Engine) onData(pkt *spec.Data, sigCovered enc.Wire, raw enc.Wire, pitToken []byte) {
+	verifBeforeLock(&e.pitLock, "pit.lock")
 	e.pitLock.Lock()
 	defer e.pitLock.Unlock()
 
@@ -316,6 +320,7 @@ func (e *Engine) onData(pkt *spec.Data, sigCovered enc.Wire, raw enc.Wire, pitTo
 }
 
 func (e *Engine) onNack(name enc.Name, reason uint64) {
+	verifBeforeLock(&e.pitLock, "pit.lock")
 	e.pitLock.Lock()
 	defer e.pitLock.Unlock()
 	n := e.pit.ExactMatch(name)
@@ -399,11 +404,13 @@ func (e *Engine) Express(interest *ndn.EncodedInterest, callback ndn.ExpressCall
 
 	// Inject interest into PIT
 	func() {
+		verifBeforeLock(&e.pitLock, "pit.lock")
 		e.pitLock.Lock()
 		defer e.pitLock.Unlock()
 
 		n := e.pit.MatchAlways(nodeName)
 		timeoutFunc := func() {
+			verifBeforeLock(&e.pitLock, "pit.lock")
 			e.pitLock.Lock()
 			defer e.pitLock.Unlock()
 			now := e.timer.Now()
